@@ -190,17 +190,17 @@ Record wfield := { resolved_type : ty; has_default : bool; has_default_factory :
 (* ------------------------------------------------------------------ the supported grammar *)
 Definition is_base (t : ty) : bool :=
   match t with Builtin BNoneType => false | Builtin _ | Cls _ | Enum _ => true | _ => false end.
-(* resolved annotations of the supported grammar: a base type, Optional of one (None written last or first),
+(* resolved annotations of the supported grammar: a base type, Optional of one (None written last or first, or T | None),
    a container of one, Type of one *)
 Definition wf_ty (t : ty) : bool :=
   match t with
-  | Optional a | OptionalL a | Cont _ a | TypeOf a => is_base a
+  | Optional a | OptionalL a | Pep604 a | Cont _ a | TypeOf a => is_base a
   | _ => is_base t
   end.
 (* declared annotations: the same with names not yet resolved at the leaves *)
 Definition is_base_decl (t : ty) : bool := match t with Fwd _ | FwdLocal _ => true | _ => is_base t end.
 Definition wf_ann (t : ty) : bool :=
   match t with
-  | Optional a | OptionalL a | Cont _ a | TypeOf a => is_base_decl a
+  | Optional a | OptionalL a | Pep604 a | Cont _ a | TypeOf a => is_base_decl a
   | _ => is_base_decl t
   end.
